@@ -35,6 +35,9 @@ pub struct CacheCase {
     /// 0 private layer / one service, 1 private layer / cloned service, 2 two services of one SharedCacheLayer
     pub mode: u8,
     pub ops: Vec<COp>,
+    /// builder call order / decoy setters (bits 0-1 rotation, bit 2 decoys, bit 3 key extractor first)
+    #[serde(default)]
+    pub setter_order: u8,
 }
 
 fn case_strategy(tier: Tier) -> BoxedStrategy<CacheCase> {
@@ -55,12 +58,14 @@ fn case_strategy(tier: Tier) -> BoxedStrategy<CacheCase> {
         0u8..3,
         2u32..=7,
         prop::collection::vec(op, 0..=max_ops),
+        0u8..16,
     )
-        .prop_map(|(policy, max_size, ttl, mode, nkeys, ops)| CacheCase {
+        .prop_map(|(policy, max_size, ttl, mode, nkeys, ops, setter_order)| CacheCase {
             policy,
             max_size,
             ttl,
             mode,
+            setter_order,
             ops: ops
                 .into_iter()
                 .map(|o| match o {
@@ -293,25 +298,52 @@ async fn interp(case: &CacheCase) -> Verdict {
         1 => EvictionPolicy::Lfu,
         _ => EvictionPolicy::Fifo,
     };
+    // builder discipline: the three settings in a generated rotation (bits 0-1), before or after the
+    // key extractor (bit 3), optionally preceded by other values that they must override (bit 2)
+    let (rot, decoy) = ((case.setter_order & 3) as usize, case.setter_order & 4 != 0);
+    let (cap, ttl) = (case.max_size, case.ttl);
+    let other_policy = match case.policy {
+        0 => EvictionPolicy::Fifo,
+        _ => EvictionPolicy::Lru,
+    };
+    macro_rules! settings {
+        ($b:expr) => {{
+            let mut b = $b;
+            if decoy {
+                b = b.max_size(cap + 5).eviction_policy(other_policy);
+                if ttl.is_some() {
+                    b = b.ttl(Duration::from_millis(1));
+                }
+            }
+            for k in 0..3usize {
+                match (k + rot) % 3 {
+                    0 => b = b.max_size(cap),
+                    1 => b = b.eviction_policy(policy),
+                    _ => {
+                        if let Some(t) = ttl {
+                            b = b.ttl(Duration::from_millis(t));
+                        }
+                    }
+                }
+            }
+            b
+        }};
+    }
     let mut svcs: Vec<Svc> = if case.mode == 2 {
-        let mut b = SharedCacheLayer::<Req, u32, Resp>::builder()
-            .max_size(case.max_size)
-            .eviction_policy(policy)
-            .key_extractor(|r: &Req| r.key);
-        if let Some(t) = case.ttl {
-            b = b.ttl(Duration::from_millis(t));
-        }
-        let layer = b.build();
+        let b = SharedCacheLayer::<Req, u32, Resp>::builder();
+        let layer = if case.setter_order & 8 != 0 {
+            settings!(b.key_extractor(|r: &Req| r.key)).build()
+        } else {
+            settings!(b).key_extractor(|r: &Req| r.key).build()
+        };
         vec![layer.layer(inner.clone()), layer.layer(inner.clone())]
     } else {
-        let mut b = CacheLayer::<Req, u32>::builder()
-            .max_size(case.max_size)
-            .eviction_policy(policy)
-            .key_extractor(|r: &Req| r.key);
-        if let Some(t) = case.ttl {
-            b = b.ttl(Duration::from_millis(t));
-        }
-        let layer = b.build();
+        let b = CacheLayer::<Req, u32>::builder();
+        let layer = if case.setter_order & 8 != 0 {
+            settings!(b.key_extractor(|r: &Req| r.key)).build()
+        } else {
+            settings!(b).key_extractor(|r: &Req| r.key).build()
+        };
         let s = layer.layer(inner.clone());
         if case.mode == 1 {
             vec![s.clone(), s]
